@@ -189,6 +189,25 @@ impl TestRunner {
             .unwrap()
             .load_program(test_bank.range().start, test_bank.data());
 
+        // A relocated segment ('pc = ...') is stored in one place but runs in another. No loader copies it there
+        // in a test, so its bytes are also put where its labels say they are.
+        for relocated in ctx.segments().values() {
+            let options = relocated.options();
+            let target_start =
+                (relocated.range().start as i64).wrapping_add(relocated.target_offset());
+            let fits = target_start >= 0
+                && (target_start as usize).saturating_add(relocated.range().len()) <= 65536;
+            if options.bank.as_ref() == Some(segment_bank)
+                && options.write
+                && relocated.target_offset() != 0
+                && fits
+            {
+                ram.write()
+                    .unwrap()
+                    .load_program(target_start as usize, relocated.range_data());
+            }
+        }
+
         let mut cpu = MOS6502::new();
         cpu.set_program_counter(active_test.data.as_i64() as u16);
 
